@@ -1,7 +1,7 @@
 -------------------------------- MODULE ICA --------------------------------
 (***************************************************************************)
 (* Interchain accounts (ICS-27 v1): controller chain A, host chain B, one  *)
-(* connection, two owners.  Properties C37 (host executes only authorized, *)
+(* connection per owner slot, two owners.  Properties C37 (host executes only authorized, *)
 (* atomic transactions) and C38 (one active channel, owner-only sends).    *)
 (*                                                                         *)
 (* The semantics is a total function  Step(S, a) = [res, ack, S]  over an  *)
@@ -19,11 +19,22 @@ EXTENDS Integers, Sequences, FiniteSets, TLC
 
 CONSTANTS FUND          \* working balance given to a freshly created interchain account
 
+\* An "owner" is a slot (connection, owner account): the key of the active-channel and account registries of both chains.
+\* In the ordinary world the two slots are two accounts on one connection; in the crossed world (Enum_ICA!XConn) they are
+\* ONE account on two connections whose identifiers are crossed (A: connection-0 <-> B: connection-1 and vice versa), so
+\* both slots have the same controller port and differ in the connection only.
 Owners   == {"O1", "O2"}
 Signers  == {"O1", "O2", "X"}         \* X : a stranger
 Orders   == {"ORDERED", "UNORDERED"}
 Encs     == {"proto3", "proto3json"}
-Allows   == {"star", "specific", "empty", "starplus"}
+\* what an initialising message may ask for: "default" = the empty version string, which the controller expands to the
+\* default metadata (encoding proto3, tx type sdk_multi_msg, the connection identifiers of the channel's connection)
+EncIn    == Encs \cup {"default"}
+EncOf(e) == IF e = "default" THEN "proto3" ELSE e
+\* "nearmiss": no entry EQUALS a type URL in use, but the entries are proper prefixes of such URLs, package patterns
+\* ending in a star, extensions of such URLs and case variants.  The allow list is a list of exact type URLs; the only
+\* wildcard is the lone star.
+Allows   == {"star", "specific", "empty", "starplus", "nearmiss"}
 IcaAccts == {"ica:O1", "ica:O2"}
 Accts    == IcaAccts \cup {"other", "dest"}
 
@@ -84,13 +95,13 @@ NewChanA(S, o, order, enc) ==
 Register(S, a) ==
     IF /\ G_SignerIsOwner(a)
        /\ G_NoOpenActive(S, a.owner)
-       /\ G_ReopenMatches(S, a.owner, a.order, a.enc)
-    THEN Acc(NewChanA(S, a.owner, a.order, a.enc)) ELSE Rej(S)
+       /\ G_ReopenMatches(S, a.owner, a.order, EncOf(a.enc))
+    THEN Acc(NewChanA(S, a.owner, a.order, EncOf(a.enc))) ELSE Rej(S)
 
 OpenInit(S, a) ==
     IF /\ G_CounterpartyIsHost(a)
-       /\ G_ReopenMatches(S, a.owner, a.order, a.enc)
-    THEN Acc(NewChanA(S, a.owner, a.order, a.enc)) ELSE Rej(S)
+       /\ G_ReopenMatches(S, a.owner, a.order, EncOf(a.enc))
+    THEN Acc(NewChanA(S, a.owner, a.order, EncOf(a.enc))) ELSE Rej(S)
 
 \* only the controller starts a handshake
 InitOnHost(S, a) == Rej(S)
@@ -281,9 +292,9 @@ RelayActs(S) ==
     \cup { [a |-> "Timeout", ca |-> k[1], seq |-> k[2]] : k \in PktKeys(S) }
 
 InitActs(signers, owners) ==
-         { [a |-> "Register", signer |-> s, owner |-> o, order |-> r, enc |-> e] : s \in signers, o \in owners, r \in Orders, e \in Encs }
+         { [a |-> "Register", signer |-> s, owner |-> o, order |-> r, enc |-> e] : s \in signers, o \in owners, r \in Orders, e \in EncIn }
     \cup { [a |-> "OpenInit", signer |-> s, owner |-> o, order |-> r, enc |-> e, cpport |-> p] :
-              s \in signers, o \in owners, r \in Orders, e \in Encs, p \in {"icahost", "other"} }
+              s \in signers, o \in owners, r \in Orders, e \in EncIn, p \in {"icahost", "other"} }
 
 WrongSideActs(S, owners) ==
          { [a |-> "InitOnHost", owner |-> o, order |-> r, enc |-> "proto3"] : o \in owners, r \in Orders }
